@@ -492,6 +492,10 @@ def run_property(ctx, spec):
         for a in h.get('anomalies', []):
             ctx.mismatch('observation anomaly: ' + a, {'origin': h.get('corpus') or h.get('seed')})
         for v in kept:
+            if v % 100 == 98:
+                ctx.infra_problem('the harness produced a call that no Python caller can make (pub_args false): %s'
+                                  % json.dumps(h['steps'][v // 100 - 1]['op']))
+                continue
             key = (h['steps'][v // 100 - 1]['op'][0], v % 100)
             reported[key] = reported.get(key, 0) + 1
             if reported[key] <= 2:           # a few witnesses per (call site, clause); all are counted
